@@ -256,6 +256,9 @@ def agreement_encodings():
         ("1-element ndarrays", wrap(lambda v: np.array([v]), lambda v: np.array([v]))),
         ("1x1 ndarrays", wrap(lambda v: np.array([[v]]), lambda v: np.array([[v]]))),
         ("1-element Series", wrap(lambda v: pd.Series([v]), lambda v: pd.Series([v]))),
+        # one-element Series cut out of a longer one: the row label is not 0 (the label is the VALUE, whatever the index says)
+        ("1-element Series with row label 7 / 'r3'", wrap(lambda v: pd.Series([v], index=[7]), lambda v: pd.Series([v], index=["r3"]))),
+        ("1-element Series slice vs scalar", wrap(lambda v: pd.Series([0, v, 0], index=[10, 11, 12]).iloc[1:2], lambda v: v, enc_scalar({0: 4, 1: 9}))),
         ("list vs scalar", wrap(lambda v: [v], ident, enc_scalar({0: 10, 1: 20}))),
         ("Series of strings vs ndarray", wrap(lambda v: pd.Series([v]), lambda v: np.array([v]), enc_multiclass(["p", "q", "r"]))),
     ]
@@ -316,7 +319,7 @@ def junk_values():
 
 
 def part_a(ctx, rng):
-    n_seq = 13 if ctx.quick else 40
+    n_seq = 12 if ctx.quick else 40
     n_seq_lfr = 5 if ctx.quick else 24
     for name, make, n, mode in label_detectors():
         encs = agreement_encodings() if mode == "agreement" else cell_encodings()
